@@ -27,6 +27,17 @@ _SHAPES = [(1, 1), (1, 2), (1, 3), (1, 4), (1, 5), (2, 1), (3, 1), (4, 1), (5, 1
 
 def gen_problem(rng, tier):
     h, w = rng.choice(_SHAPES)
+    return _gen(rng, h, w)
+
+
+def extra_program_problems(rng):
+    """Larger boards for the program correspondence only (nothing is enumerated there): one non-square medium board and two
+    with more than 256 cells (a tall and a wide one); the number of clues grows with the board."""
+    from . import _loop
+    return [_gen(rng, h, w, big=True) for h, w in _loop.big_shapes(rng)]
+
+
+def _gen(rng, h, w, big=False):
     n = h * w
     pb = [[0] * w for _ in range(h)]
     mode = rng.random()
@@ -49,6 +60,8 @@ def gen_problem(rng, tier):
         k = 0
     else:
         k = rng.choice([1, 1, 2, 2, 2, 3, 3, 4])
+    if big:
+        k = rng.randint(n // 12, n // 6)
     cells = [(y, x) for y in range(h) for x in range(w)]
     rng.shuffle(cells)
     if rng.random() < 0.3:
